@@ -377,7 +377,7 @@ def check_case(ctx, case, collect=None):
                             probs.append(('disagree', 'replica-table', 'written rows differ from the model'))
                         back = [[float(Fraction(a, b)) for a, b in col] for col in rr['deltas']]
                         for o, col in zip(x, back):
-                            if not all(close(u, float(v), rtol=1e-12, scale=sc) for u, v in zip(col, o.deltas[nm])):
+                            if not all(close(u, float(v), rtol=1e-10, scale=sc) for u, v in zip(col, o.deltas[nm])):   # chains are zero-mean up to accumulated rounding (1e-12 relative seen)
                                 probs.append(('disagree', 'replica-table-decode', 'model decode does not restore the fluctuations (non zero-mean chain?)'))
                                 break
     finally:
